@@ -127,12 +127,15 @@ def apply(h, m):
         raise AssertionError(m)
 
 
-def observe(h):
+def observe(h, render=False):
     """Every read-only observer of a Hugr, called before a mutation so that anything memoised too
     early (a cached link list, a cached serialization, a renderer's scratch state) is in place when the
     mutation happens.  Observers may legitimately raise on incomplete graphs; results are discarded."""
-    for f in (lambda: h.to_json(), lambda: list(h.links()), lambda: h.render_dot(), lambda: h.to_model(), lambda: [h.children(n) for n in h],
-              lambda: [(h.num_in_ports(n), h.num_out_ports(n)) for n in h], lambda: h.num_nodes()):
+    obs = [lambda: h.to_json(), lambda: list(h.links()), lambda: h.to_model(), lambda: [h.children(n) for n in h],
+           lambda: [(h.num_in_ports(n), h.num_out_ports(n)) for n in h], lambda: h.num_nodes()]
+    if render:  # the renderer is only worth its cost where drawings are judged (C20)
+        obs.append(lambda: h.render_dot())
+    for f in obs:
         try:
             f()
         except Exception:  # noqa: BLE001
